@@ -585,3 +585,15 @@ _c12_base_soc = contracts
 
 def contracts():
     return _c12_base_soc() + [self_or_cls_contract()]
+
+
+# edit_constant restores exactly the flags it switched off — an instance-level edit never reaches the
+# class-level Parameter (verified for C14)
+_c12_base_ec = contracts
+
+
+def contracts():
+    from contracts import c14 as _c14
+    c = _c14.edit_constant_contract()
+    c.prop = "C12"
+    return _c12_base_ec() + [c]
